@@ -233,6 +233,33 @@ fn shapes() -> Vec<(Vec<(String, String)>, bool)>
 				}
 			}
 		}
+		// a function that shares its name with a constant of the module, or with a C function
+		// that the compiler declares itself for its built-ins
+		for flags in ["", "pub ", "extern ", "pub extern "]
+		{
+			for constant_first in [true, false]
+			{
+				let constant = "const value: i32 = 7;\n";
+				let function = format!("{flags}fn value() -> i32\n{{\n\treturn: value\n}}\n");
+				let main = "fn main() -> i32\n{\n\treturn: value()\n}\n";
+				let text = if constant_first { format!("{constant}{function}{main}") } else { format!("{function}{main}{constant}") };
+				out.push((vec![("m.pn".to_string(), text)], wasm));
+			}
+			for (helper, signature, builtin) in [("abort", "()", "panic!(\"x\");"), ("write", "(a: i32)", "print!(\"x\");"), ("snprintf", "(a: i32)", "print!(\"x\", 1);")]
+			{
+				let head_only = flags.contains("extern");
+				for with_body in [true, false]
+				{
+					if !with_body && !head_only
+					{
+						continue;
+					}
+					let function = if with_body { format!("{flags}fn {helper}{signature}\n{{\n}}\n") } else { format!("{flags}fn {helper}{signature};\n") };
+					let text = format!("{function}fn main() -> i32\n{{\n\tvar x: i32 = 1;\n\tif x == 2\n\t{{\n\t\t{builtin}\n\t}}\n\treturn: 0\n}}\n");
+					out.push((vec![("m.pn".to_string(), text)], wasm));
+				}
+			}
+		}
 		// structure literals: every order of the members in the literal, constant and
 		// non-constant values, in constant, local and argument position
 		let members = [("a", "u64", "2"), ("b", "i32", "40"), ("c", "u8", "7")];
@@ -408,7 +435,16 @@ fn judge_inner(files: &[(String, String)], wasm: bool, family: &str, w: &mut Wor
 					let flags = decl.get("flags").unwrap_or("");
 					let has_body = decl.children.iter().any(|c| c.kind == "Body");
 					let ir = &irs[i];
-					let def = ir.lines().find(|l| l.starts_with("define") && l.contains(&format!("@{name}(")));
+					let must_be_visible = name == "main" || flags.contains("Public");
+					// the LLVM name of a private function is immaterial: when the name is needed for
+					// something the linker must find, LLVM's numeric suffix is acceptable
+					let suffixed = |l: &str| -> bool {
+						l.split(&format!("@{name}.")).skip(1).any(|rest| {
+							let digits: String = rest.chars().take_while(|c| c.is_ascii_digit()).collect();
+							!digits.is_empty() && rest[digits.len()..].starts_with('(')
+						})
+					};
+					let def = ir.lines().find(|l| l.starts_with("define") && (l.contains(&format!("@{name}(")) || (!must_be_visible && suffixed(l))));
 					let decl_line = ir.lines().find(|l| l.starts_with("declare") && l.contains(&format!("@{name}(")));
 					if has_body
 					{
@@ -422,7 +458,6 @@ fn judge_inner(files: &[(String, String)], wasm: bool, family: &str, w: &mut Wor
 							Some(line) =>
 							{
 								let hidden = line.contains(" private ") || line.contains(" internal ");
-								let must_be_visible = name == "main" || flags.contains("Public");
 								if must_be_visible && hidden
 								{
 									ok = false;
@@ -441,6 +476,32 @@ fn judge_inner(files: &[(String, String)], wasm: bool, family: &str, w: &mut Wor
 					else if decl_line.is_none() && def.is_none()
 					{
 						w.result.soft("function head without declare/define in IR", || format!("{name}: {}", files[i].1.chars().take(80).collect::<String>()));
+					}
+				}
+			}
+			// observation: `declare ... @abort.1()` names nothing that exists at link or run time
+			// (LLVM renames on a clash within the module)
+			for (which, ir) in &texts
+			{
+				for line in ir.lines().filter(|l| l.starts_with("declare"))
+				{
+					let Some(at) = line.find('@')
+					else
+					{
+						continue;
+					};
+					let symbol: String = line[at + 1..].chars().take_while(|c| *c != '(').collect();
+					if symbol.starts_with("llvm.")
+					{
+						continue;
+					}
+					if let Some((base, suffix)) = symbol.rsplit_once('.')
+					{
+						if !base.is_empty() && !suffix.is_empty() && suffix.chars().all(|c| c.is_ascii_digit())
+						{
+							// valid IR, hence not C03's subject: C01 runs such programs
+							w.result.soft("external symbol declared under a renamed name", || format!("{which}: `{line}` (the module uses `{base}` for something else)"));
+						}
 					}
 				}
 			}
